@@ -273,6 +273,30 @@ func build(engine string, race bool) string {
 		}
 	}
 	tmp := bin + fmt.Sprintf(".tmp%d", os.Getpid())
+	if engine == "cfg" {
+		// cfgsim: the engine is a test binary of bio-rd's own package main (cmd/bio-rd), whose
+		// test file comes from the overlay; bio-rd is the main module, the harness a dependency
+		gm, err := os.ReadFile(filepath.Join(repoDir(), "go.mod"))
+		if err != nil {
+			infra("cannot read %s/go.mod: %v", repoDir(), err)
+		}
+		gm = append(gm, []byte("\nrequire (\n\tverif.local/harness v0.0.0\n\tverif.local/simrt v0.0.0\n)\n\nreplace verif.local/harness => "+hdir+"\n\nreplace verif.local/simrt => "+filepath.Join(verifDir, "simrt")+"\n")...)
+		os.WriteFile(filepath.Join(dir, "cfg.go.mod"), gm, 0o644)
+		var sum []byte
+		for _, f := range []string{filepath.Join(repoDir(), "go.sum"), filepath.Join(hdir, "go.sum")} {
+			if b, err := os.ReadFile(f); err == nil {
+				sum = append(append(sum, b...), '\n')
+			}
+		}
+		os.WriteFile(filepath.Join(dir, "cfg.go.sum"), sum, 0o644)
+		args := []string{"test", "-c", "-tags", "verif", "-overlay=" + filepath.Join(dir, "overlay.json"), "-modfile=" + filepath.Join(dir, "cfg.go.mod"), "-o", tmp, "./cmd/bio-rd"}
+		if out, err := run(repoDir(), 20*time.Minute, filepath.Join(goBin, "go"), args...); err != nil {
+			os.Remove(tmp)
+			infra("cfgsim engine build failed (the tree, the accessors or the in-package test do not compile): %v\n%s", err, tail(out, 4000))
+		}
+		os.Rename(tmp, bin)
+		return bin
+	}
 	args := []string{"test", "-c", "-tags", "verif", "-overlay=" + filepath.Join(dir, "overlay.json"), "-o", tmp}
 	if repoDir() != "/repo" {
 		// internal use (validation of seeded changes on a scratch copy, in parallel with other work):
